@@ -105,3 +105,54 @@ Example C19_stride_negative_bounds_refuted :
   exists p', StridePattern_canonicalize p = Some p' /\ taddrs p = [] /\ taddrs p' <> [].
 Proof. eexists. split; [vm_compute; reflexivity|]. split; [reflexivity | vm_compute; discriminate]. Qed.
 Print Assumptions C19_stride_negative_bounds_refuted.
+
+(* ---- (d) AffineTransform (hand model Model/C19Transform.v) ------------------------------------- *)
+From Snax Require Import Model.C19Transform Proofs.C19TransformProofs.
+
+(* compose(s, o) applied to x = s applied to (o applied to x), for all well-shaped integer matrices *)
+Theorem C19_compose_eval :
+  forall s o c x y, wf_atrans s = true -> wf_atrans o = true ->
+    at_compose s o = Some c -> at_eval o x = Some y -> at_eval c x = at_eval s y.
+Proof. exact compose_eval. Qed.
+Print Assumptions C19_compose_eval.
+
+(* the affine map built from (A, b) evaluates to A x + b at every point *)
+Theorem C19_to_map_eval :
+  forall t x y sv, wf_atrans t = true -> at_eval t x = Some y -> map_eval (env x) sv (to_affine_map t) = y.
+Proof. exact to_map_eval. Qed.
+Print Assumptions C19_to_map_eval.
+
+(* for every pure-affine map (+, * by constant expressions; any nesting) the matrix obtained from the
+   zero / unit responses evaluates like the map, and converting back gives a map that evaluates
+   identically at every point *)
+Theorem C19_from_map_eval :
+  forall m t x, from_affine_map m = Some t -> forallb is_affine (results m) = true ->
+    length x = Z.to_nat (num_dims m) -> at_eval t x = Some (map_eval (env x) no_sym m).
+Proof. exact from_map_eval. Qed.
+Print Assumptions C19_from_map_eval.
+
+Theorem C19_transform_roundtrip :
+  forall m t x sv, from_affine_map m = Some t -> forallb is_affine (results m) = true ->
+    length x = Z.to_nat (num_dims m) -> map_eval (env x) sv (to_affine_map t) = map_eval (env x) no_sym m.
+Proof. exact transform_roundtrip. Qed.
+Print Assumptions C19_transform_roundtrip.
+
+Theorem C19_eval_batch_is_map :
+  forall t xs ys, at_eval_batch t xs = Some ys -> Forall2 (fun x y => at_eval t x = Some y) xs ys.
+Proof. exact eval_batch_is_map. Qed.
+Print Assumptions C19_eval_batch_is_map.
+
+Example C19_roundtrip_nonvacuous :
+  let m := AMap 2 0 [EBin KAdd (EBin KMul (EBin KAdd (EDim 0) (ECst 3)) (ECst 4)) (EDim 1); EDim 1] in
+  forallb is_affine (results m) = true /\
+  from_affine_map m = Some (AT [[4; 1]; [0; 1]] [12; 0] 2).
+Proof. split; vm_compute; reflexivity. Qed.
+Print Assumptions C19_roundtrip_nonvacuous.
+
+(* the `is_affine` hypothesis is needed: from_affine_map accepts the (raw) product of two dimensions
+   and returns a matrix that does not evaluate like the map *)
+Example C19_from_map_nonlinear_refuted :
+  let m := AMap 2 0 [EBin KMul (EDim 0) (EDim 1)] in
+  exists t, from_affine_map m = Some t /\ at_eval t [2; 3] <> Some (map_eval (env [2; 3]) no_sym m).
+Proof. eexists. split; [vm_compute; reflexivity | vm_compute; discriminate]. Qed.
+Print Assumptions C19_from_map_nonlinear_refuted.
